@@ -694,6 +694,41 @@ EVALFLEX_C12 = ["C12Flex." + n for n in [
     "tree_equiv_flex", "tree_equiv_block_flex_leaf_trees", "tree_equiv_root_block_flex_leaf_trees"]] + [
     "C12L.flex_containerBlind", "C12L.fbDefinite_tbb", "C12L.usedCrossItem_tbb", "C12L.computeConstants_tbb"]
 
+# grid as a whole program (Model/Grid.lean, GridItem.lean, GridSizing.lean): the evaluator-level hypotheses for grid
+EVALGRID_C12_MODULES = ["TaffyVerif.Props.EvalGridBox"]
+EVALGRID_C12 = ["C12Grid." + n for n in [
+    "grid_container_site_equiv", "grid_item_site_equiv", "grid_sites", "grid_ContainerBlind", "boxBlind_all",
+    "tree_equiv_all_trees", "tree_equiv_all_trees_dispatch", "tree_equiv_root_all_trees", "treeAB_rel",
+    "allAlgsK_eq"]] + [
+    "C12L.grid_containerBlind", "C12L.readers_rat", "C12L.mcCap_bump", "C12L.knownDimensions_bump", "C12L.mkCtx_tbb",
+    "GridRel.computeGridLayoutE_rel", "GridStages.computeGridLayoutE_eq", "GridKernel.gridAlgK_eq"]
+
+EVALGRID_C06_MODULES = ["TaffyVerif.Props.EvalGridAbs"]
+EVALGRID_C06 = ["EvalGridAbs." + n for n in [
+    "runAns_absEquiv", "w_agree", "w_line", "w_auto", "grid_not_AbsBlind", "grid_AbsBlind_partial",
+    "linesAgree_of_auto", "grid_AbsBlind_auto", "gridN_AbsBlind", "abs_invisible_all_trees_partial",
+    "abs_invisible_pass_all_trees_partial", "treeAB_rel", "treeA_auto", "treeB_auto"]] + [
+    "GridAbs.gridAlg_absEquiv", "GridAbs.gridAlgN_AbsBlind", "GridAbs.eval_gridAlgN", "GridAbs.absAutoLinesB_iff",
+    "GridRel.computeGridLayoutE_rel", "GridStages.computeGridLayoutE_eq", "GridKernel.gridAlgK_eq"]
+
+EVALGRID_C04_MODULES = ["TaffyVerif.Props.EvalGridScale"]
+EVALGRID_C04 = ["C04Grid." + n for n in [
+    "grid_homogeneous_modulo", "gridAlgG_real", "explicit_grid_size_homogeneous", "track_sizing_fixed_homogeneous",
+    "grid_homogeneous_partial", "gridAlgT_real", "track_sizing_joint_homogeneous",
+    "explicit_grid_size_joint_homogeneous", "grid_homogeneous_joint", "grid_scaled_run",
+    "grid_homogeneous_run_partial", "grid_homogeneous_run_iff",
+    "witness_gscale", "witness_values", "grid_not_homogeneous", "not_algsHomogeneous_grid",
+    "witness_side_condition", "witness2_values", "grid_not_homogeneous_autorepeat", "witness2_side_condition",
+    "scale_ignores_grid", "scale_misses_grid_tracks", "exGrid_fixed", "inGrid_run", "inGrid_constFree",
+    "witnesses_not_constFree"]] + [
+    "C04.gridAlgG_scale", "C04.mkCtx_scale", "C04.computeExplicit_scale", "C04.initializeGridTracks_scale",
+    "C04.alignTracks_scale", "C04.gridFinish_sim", "C04.trackSizing_fixed_hom", "C04.initializeGridTracks_fixed",
+    "C04.trackSizingT_hom", "C04.computeExplicitT_scale", "C04.gridAlgT_scale", "C04.resolveIntrinsicTrackSizesT_sim",
+    "C04.expandFlexibleTracksM_sim", "C04.maximiseTracksT_scale", "C04.stretchAutoTracks_scale",
+    "C04.distributeSpaceUpToLimitsT_scale", "C04.findSizeOfFr_scale",
+    "GridScale.gridAlgG_eq", "GridKernel.gridAlgK_eq", "GridTheta.trackSizingAlgorithmT_eq",
+    "GridTheta.computeExplicitT_eq", "GridTheta.gridAlgT_real", "GridTheta.gridAlgTK_eq"]
+
 _PAIRS_TRUSTED = [
     "the whole-tree clause is NOT a theorem here: it is checked by sampling tree pairs on the real implementation "
     "(fresh TaffyTree, rounding disabled, harness measure function treegen::measure); the predicate is evaluated twice, "
@@ -786,7 +821,7 @@ PROPS["C17"] = {
 }
 
 PROPS["C04"] = {
-    "modules": ['TaffyVerif.Props.C04'] + EVALFLEX_C04_MODULES, "theorems": EVALFLEX_C04 + ['C04.num_homogeneous', 'C04.resolve_homogeneous', 'C04.aspect_ratio_homogeneous', 'C04.clamp_homogeneous', 'C04.margin_set_homogeneous', 'C04.measure_homogeneous', 'C04.leaf_homogeneous', 'C04.leaf_homogeneous_ctx', 'C04.root_homogeneous', 'C04.abs_homogeneous', 'C04.abs_call_sites_homogeneous', 'C04.flex_line_homogeneous', 'C04.block_homogeneous', 'C04.flow_loop_homogeneous', 'C04.place_item_homogeneous', 'C04.tree_homogeneous', 'C04.tree_homogeneous_fresh', 'C04.tree_homogeneous_evalNode', 'C04.leafAlg_homogeneous', 'C04.algs_homogeneous_concrete', 'C04.tree_homogeneous_concrete', 'C04.cache_roughly_equal_homogeneous', 'C04.cache_roughly_equal_not_homogeneous'],
+    "modules": ['TaffyVerif.Props.C04'] + EVALFLEX_C04_MODULES + EVALGRID_C04_MODULES, "theorems": EVALFLEX_C04 + EVALGRID_C04 + ['C04.num_homogeneous', 'C04.resolve_homogeneous', 'C04.aspect_ratio_homogeneous', 'C04.clamp_homogeneous', 'C04.margin_set_homogeneous', 'C04.measure_homogeneous', 'C04.leaf_homogeneous', 'C04.leaf_homogeneous_ctx', 'C04.root_homogeneous', 'C04.abs_homogeneous', 'C04.abs_call_sites_homogeneous', 'C04.flex_line_homogeneous', 'C04.block_homogeneous', 'C04.flow_loop_homogeneous', 'C04.place_item_homogeneous', 'C04.tree_homogeneous', 'C04.tree_homogeneous_fresh', 'C04.tree_homogeneous_evalNode', 'C04.leafAlg_homogeneous', 'C04.algs_homogeneous_concrete', 'C04.tree_homogeneous_concrete', 'C04.cache_roughly_equal_homogeneous', 'C04.cache_roughly_equal_not_homogeneous'],
     "harness": "C04", "driver": "C04", "monitor": False, "extra_ties": [("EVAL", "EVAL"), ("FLEX", "FLEX"), ("GRID", "GRID")], "extra_tie_cases": 4000,
     "rule": "style trees of 1-12 nodes, depth <= 4, flex/grid/block mixed (treegen::gen_tree with every feature on: hidden, "
             "absolute, percentages, aspect ratios, content-box, auto/negative margins, scroll containers, wrap/fixed measure "
@@ -816,13 +851,13 @@ PROPS["C04"] = {
                     "a tree on which both layouts panic is skipped (counted as panic:both; one such input class is a C03 matter: "
                     "repeat(auto-fit, ...) columns in a grid whose only children are display:none)"],
     "level_text": "Theorems at exact rationals, for every k > 0: every modelled function commutes with scaling all lengths by k — length/percentage resolution, the five MaybeMath clamp families, aspect-ratio transfer, margin sets, the measure functions, compute_leaf_layout (output and measure-call arguments), compute_root_layout's parts, the three absolute-positioning copies and their call sites, the flex line functions (freeze loop, justification, positions — no side condition needed), and the WHOLE block algorithm as an interaction program; and tree_homogeneous: the cache-free tree-level evaluator maps the scaled tree/state/input to the scaled output and scaled layouts whenever the container algorithms are homogeneous, which is proved for leaf, block and — unconditionally, since the repair of the scaled flex shrink factor in determine_container_main_size — the WHOLE flexbox algorithm as an interaction program (C04Flex.flex_homogeneous), so trees of block containers, flexbox containers and leaves are homogeneous outright, whatever the grid algorithm (C04Flex.tree_homogeneous_block_flex_leaf_trees). The cache's ε comparison is proved NOT homogeneous (witness) — hence the statement on cache-free evaluation. On the real code the clause is sampled on tree pairs with power-of-two factors, bit-exact.",
-    "level_note": 'flexbox.rs as a whole program (Model/Flex.lean) is proved homogeneous UNCONDITIONALLY (C04Flex.flex_homogeneous: for every k > 0, style, child styles and input the program of the scaled container is the scaled program; pieces: C04Flex.flex_prefix_homogeneous, flex_main_size_homogeneous, flex_after_main_homogeneous; item level: item_fraction_homogeneous, item_target_homogeneous; runs: flex_homogeneous_run), hence AlgsHomogeneous for leaf+block+flex with only the grid hypothesis (C04Flex.algsHomogeneous_flex, tree_homogeneous_flex_algs) and the tree theorem with no hypothesis on trees of block containers, flexbox containers and leaves (C04Flex.tree_homogeneous_block_flex_leaf_trees on NoGrid trees, cache-free evaluator). This holds of the REPAIRED code: flexbox.rs determine_container_main_size now computes the max-content flex fraction of a shrinking item as diff / (f32_max(1.0, flex_shrink) * inner_flex_basis) (0 when that scaled shrink factor is not positive) instead of diff / f32_max(1.0, flex_shrink * inner_flex_basis) — the former finding c04-flex-shrink-floor-at-one, whose witness is kept as a regression example (now homogeneous) and whose refutation C04Flex.flex_not_homogeneous no longer holds. partial: homogeneity of grid is a hypothesis of the tree theorem (sampled by tree pairs). Known finding: grid track-sizing THRESHOLD constants. No theorem relates f32 to rational arithmetic; with power-of-two factors every f32 operation commutes with the scaling exactly. Axioms: propext, Classical.choice, Quot.sound.',
+    "level_note": 'flexbox.rs as a whole program (Model/Flex.lean) is proved homogeneous UNCONDITIONALLY (C04Flex.flex_homogeneous: for every k > 0, style, child styles and input the program of the scaled container is the scaled program; pieces: C04Flex.flex_prefix_homogeneous, flex_main_size_homogeneous, flex_after_main_homogeneous; item level: item_fraction_homogeneous, item_target_homogeneous; runs: flex_homogeneous_run), hence AlgsHomogeneous for leaf+block+flex with only the grid hypothesis (C04Flex.algsHomogeneous_flex, tree_homogeneous_flex_algs) and the tree theorem with no hypothesis on trees of block containers, flexbox containers and leaves (C04Flex.tree_homogeneous_block_flex_leaf_trees on NoGrid trees, cache-free evaluator). This holds of the REPAIRED code: flexbox.rs determine_container_main_size now computes the max-content flex fraction of a shrinking item as diff / (f32_max(1.0, flex_shrink) * inner_flex_basis) (0 when that scaled shrink factor is not positive) instead of diff / f32_max(1.0, flex_shrink * inner_flex_basis) — the former finding c04-flex-shrink-floor-at-one, whose witness is kept as a regression example (now homogeneous) and whose refutation C04Flex.flex_not_homogeneous no longer holds. The WHOLE grid program (Model/Grid.lean, tied by the GRID correspondence) is treated in Props/EvalGridScale.lean: the unconditional statement is refuted on two witnesses replayed on the real code — C04Grid.grid_not_homogeneous (THRESHOLD = 0.01 of distribute_space_up_to_limits, known finding c04-grid-track-threshold) and C04Grid.grid_not_homogeneous_autorepeat (compute_explicit_grid_size_in_axis counts a zero-size auto-repetition as 1px wide, as the CSS specification suggests; known finding c04-auto-repeat-one-px-floor); the whole program with its three absolute constants (the 1px substitute, THRESHOLD 0.01, THRESHOLD 0.000001) taken as parameters (GridTheta.gridAlgT, equal to the grid program at the real constants: C04Grid.gridAlgT_real) is UNCONDITIONALLY homogeneous jointly in lengths and constants (C04Grid.grid_homogeneous_joint), so these are the only absolute lengths in the grid algorithm; the run of the scaled container is the scaled run IF AND ONLY IF the original run does not change when the three constants are divided by k (C04Grid.grid_homogeneous_run_iff, decidable condition ConstFree); statically: homogeneous on containers all of whose tracks are fixed-size (C04Grid.grid_homogeneous_partial). partial: Scalable (Style Rat) of Model/Scale.lean does not scale Style.grid (C04Grid.scale_ignores_grid), the grid theorems use C04.gscale, and the tree theorem is therefore not lifted to trees with grid containers. Known findings: grid THRESHOLD constants; 1px floor of zero-size auto-repetitions. No theorem relates f32 to rational arithmetic; with power-of-two factors every f32 operation commutes with the scaling exactly. Axioms: propext, Classical.choice, Quot.sound.',
     "technique": 'Lean 4 equivariance proofs (function level + induction over the evaluator) + metamorphic scaled tree pairs on the real TaffyTree',
-    "undischarged": ['AlgsHomogeneous for the grid program: a hypothesis of the tree theorem on trees with grid containers (refuted on the real code up to the track-sizing thresholds: known finding c04-grid-track-threshold); sampled by the tree pairs only'],
+    "undischarged": ['AlgsHomogeneous for grid: FALSE (C04Grid.grid_not_homogeneous, C04Grid.grid_not_homogeneous_autorepeat; known findings); proved jointly in lengths and the three absolute constants (C04Grid.grid_homogeneous_joint), run by run under the exact condition C04Grid.ConstFree (C04Grid.grid_homogeneous_run_iff) and statically under C04Grid.GridFixed; the tree theorem is not lifted to trees with grid containers (Style.grid is not scaled by Scalable (Style Rat))'],
 }
 
 PROPS["C12"] = {
-    "modules": ['TaffyVerif.Props.C12'] + EVALFLEX_C12_MODULES, "theorems": EVALFLEX_C12 + ['C12.core_arith', 'C12.adjustment_context_free', 'C12.core_site_shape', 'C12.core_flex_basis', 'C12.isAuto_invariant', 'C12.leaf_site_equiv', 'C12.root_site_equiv', 'C12.single_leaf_equiv', 'C12.abs_site_equiv_block', 'C12.abs_site_equiv_flex', 'C12.abs_site_equiv_grid', 'C12.abs_call_sites_equiv', 'C12.block_container_site_equiv', 'C12.block_item_site_equiv', 'C12.tree_equiv', 'C12.tree_equiv_init', 'C12.tree_equiv_root', 'C12.leafAlg_blind', 'C12.block_blind', 'C12.boxBlind_modelled', 'C12.tree_equiv_modelled', 'C12.tree_equiv_block_only', 'C12.grid_compressible_cap_site_not_equiv', 'C12.grid_compressible_cap_repaired_equiv'],
+    "modules": ['TaffyVerif.Props.C12'] + EVALFLEX_C12_MODULES + EVALGRID_C12_MODULES, "theorems": EVALFLEX_C12 + EVALGRID_C12 + ['C12.core_arith', 'C12.adjustment_context_free', 'C12.core_site_shape', 'C12.core_flex_basis', 'C12.isAuto_invariant', 'C12.leaf_site_equiv', 'C12.root_site_equiv', 'C12.single_leaf_equiv', 'C12.abs_site_equiv_block', 'C12.abs_site_equiv_flex', 'C12.abs_site_equiv_grid', 'C12.abs_call_sites_equiv', 'C12.block_container_site_equiv', 'C12.block_item_site_equiv', 'C12.tree_equiv', 'C12.tree_equiv_init', 'C12.tree_equiv_root', 'C12.leafAlg_blind', 'C12.block_blind', 'C12.boxBlind_modelled', 'C12.tree_equiv_modelled', 'C12.tree_equiv_block_only', 'C12.grid_compressible_cap_site_not_equiv', 'C12.grid_compressible_cap_repaired_equiv'],
     "harness": "C12", "driver": "C12", "monitor": False, "extra_ties": [("EVAL", "EVAL"), ("FLEX", "FLEX"), ("GRID", "GRID")], "extra_tie_cases": 4000,
     "rule": "style trees of 1-12 nodes as for C04 in which half of the nodes are made content-box with length-valued padding/border "
             "(multiples of 1/4, mostly non-zero), no aspect ratio, percentages in size/min/max/flex-basis replaced by lengths or auto, "
@@ -837,9 +872,9 @@ PROPS["C12"] = {
     "trusted_base": _PAIRS_TRUSTED,
     "assumptions": ["padding/border of switched nodes are lengths (percentages disqualify), values dyadic so sums are exact"],
     "level_text": "Theorems at exact rationals: for an eligible content-box style (length padding/border, no aspect ratio, size/min/max/flex-basis auto or lengths) and its border-box rewrite, every modelled size-reading site computes the same thing — compute_leaf_layout (incl. measure calls), compute_root_layout's parts, the three absolute-positioning copies (child and container side), the block algorithm for its own style and for any subset of switched child styles (equal programs); tree_equiv: with BoxBlind algorithms the two trees evaluate to equal outputs and equal states for every cache implementation, proved outright for trees of block containers and leaves. One unmodelled grid site (compressible replaced items' size cap in grid_item.rs) was found NOT equivalent — witness proved in Lean, replayed on the real code, repaired by a fix commit. On the real code the clause is sampled on tree pairs (random subsets of switched nodes), bit-exact.",
-    "level_note": 'partial: ContainerBlind is PROVED for the whole flexbox program (C12Flex.flex_ContainerBlind: own style and any subset of child styles, flex-basis along the main axis), so on trees of block containers, flexbox containers and leaves the tree theorem holds unconditionally (C12Flex.tree_equiv_block_flex_leaf_trees); grid item generation is not modelled as a program (ContainerBlind grid is a hypothesis; a regex site table notes/c12_sites.py lists every read of size/min_size/max_size/flex_basis and whether it is followed by the box-sizing adjustment). Axioms: propext, Classical.choice, Quot.sound.',
+    "level_note": 'proved: ContainerBlind is PROVED for the whole flexbox program (C12Flex.flex_ContainerBlind) and for the whole grid program (C12Grid.grid_ContainerBlind: Model/Grid.lean + GridItem.lean + GridSizing.lean, tied by the GRID correspondence; own style incl. compute_explicit_grid_size_in_axis, and any subset of child styles through GridItem::new, known_dimensions, minimum_contribution with the REPAIRED cap of compressible replaced items, align_and_position_item for in-flow and absolute children), so BoxBlind holds for all four modelled algorithms (C12Grid.boxBlind_all) and the tree theorem holds for ALL trees with no hypothesis left (C12Grid.tree_equiv_all_trees, tree_equiv_root_all_trees). C12.grid_compressible_cap_site_not_equiv remains the witness against the unrepaired code. Axioms: propext, Classical.choice, Quot.sound.',
     "technique": 'Lean 4 site-equivalence proofs + induction over the evaluator + metamorphic box-sizing tree pairs on the real TaffyTree',
-    "undischarged": ['ContainerBlind for grid (unmodelled as a program; false of the real grid for compressible replaced items): sampled by the tree pairs and covered by the site table only'],
+    "undischarged": [],
 }
 
 PROPS["C05"] = {
@@ -863,8 +898,8 @@ PROPS["C05"] = {
 }
 
 PROPS["C06"] = {
-    "modules": C06_EVAL_MODULES + EVALBLOCK_MODULES + EVALFLEX_C06_MODULES,
-    "theorems": C06_EVAL_THEOREMS + EVALBLOCK_C06 + EVALFLEX_C06,
+    "modules": C06_EVAL_MODULES + EVALBLOCK_MODULES + EVALFLEX_C06_MODULES + EVALGRID_C06_MODULES,
+    "theorems": C06_EVAL_THEOREMS + EVALBLOCK_C06 + EVALFLEX_C06 + EVALGRID_C06,
     "harness": "C06", "driver": "C06", "monitor": False, "extra_ties": [("EVAL", "EVAL"), ("FLEX", "FLEX"), ("GRID", "GRID")], "extra_tie_cases": 4000,
     "rule": "style trees of 2-12 nodes as for C04, with 1-3 extra non-root nodes forced to position:absolute (random insets incl. "
             "percentages and negatives, a quarter with explicit grid lines, a quarter with auto lines, a third with large sizes); for "
@@ -878,9 +913,9 @@ PROPS["C06"] = {
     "assumptions": ["known finding c06-abs-grid-implicit-tracks: an absolutely positioned grid child's explicit lines create "
                     "implicit tracks (attribution uses the grid-line fields, which only the harness sees)"],
     "level_text": "Theorems over the tree-level evaluator, for every tree, state, input, fuel and each of the three cache implementations: if the container algorithms' programs are equivalent up to calls/set-layouts addressed to absolutely positioned children and up to the contentSize of the result (AbsBlind), then replacing an absolutely positioned box (style and subtree) by any other absolutely positioned box yields outputs equal up to contentSize and equal order, location, size, scrollbar, border, padding and margin at every node outside the absolute subtrees. On the real code the clause is checked on generated tree pairs; the grid size estimate's dependence on an absolute child's grid lines is the known finding.",
-    "level_note": 'partial: AbsBlind is a named hypothesis about the container algorithms; it is PROVED for the block model (EvalBlock.block_AbsBlind) and for the whole flexbox program (EvalFlexAbs.flex_AbsBlind), so on trees of block containers, flexbox containers and leaves (FlexTrees.NoGrid) the clause holds unconditionally (EvalFlexAbs.abs_invisible_*_block_flex_leaf_trees); for grid it remains a hypothesis validated by the tree-pair run. Known finding: grid (c06-abs-grid-implicit-tracks). Trusted: Lean kernel; Eval model. Axioms: propext, Classical.choice, Quot.sound.',
+    "level_note": 'partial: AbsBlind is a named hypothesis about the container algorithms; it is PROVED for the block model (EvalBlock.block_AbsBlind) and for the whole flexbox program (EvalFlexAbs.flex_AbsBlind), so on trees of block containers, flexbox containers and leaves (FlexTrees.NoGrid) the clause holds unconditionally (EvalFlexAbs.abs_invisible_*_block_flex_leaf_trees); for the whole grid program (Model/Grid.lean, tied by the GRID correspondence) AbsBlind is FALSE (EvalGridAbs.grid_not_AbsBlind: the known fixed case — grid 100 wide, auto-rows 30, an in-flow 10x10 child, an absolute child with grid-row-start 5: container 150 high vs 30 — proved at Rat and replayed on the real code) and PROVED when the absolutely positioned children of the two lists have the same grid_row/grid_column (EvalGridAbs.grid_AbsBlind_partial; in particular when all have auto lines: grid_AbsBlind_auto, decidable), so on trees of leaves, block, flexbox and grid containers in which every absolutely positioned child of a grid container has auto grid lines the clause holds (EvalGridAbs.abs_invisible_all_trees_partial, abs_invisible_pass_all_trees_partial). Known finding: grid (c06-abs-grid-implicit-tracks). Trusted: Lean kernel; Eval model. Axioms: propext, Classical.choice, Quot.sound.',
     "technique": 'Lean 4 simulation-up-to proof over the interaction-program evaluator + metamorphic tree pairs on the real TaffyTree',
-    "undischarged": ['AbsBlind for the grid program (unmodelled as a program; known finding c06-abs-grid-implicit-tracks): sampled by the tree pairs only'],
+    "undischarged": ['AbsBlind for grid: FALSE as stated (EvalGridAbs.grid_not_AbsBlind, known finding c06-abs-grid-implicit-tracks: the grid size estimate iterates over absolutely positioned children); proved for child lists whose absolutely positioned children agree on their grid lines (EvalGridAbs.grid_AbsBlind_partial) and lifted to trees whose grid containers have only auto-line absolute children (EvalGridAbs.abs_invisible_all_trees_partial)'],
 }
 
 PROPS["C09"] = {
